@@ -34,6 +34,8 @@ pub fn link_ip(k: u8) -> IpAddr {
 pub struct WireEvt {
     /// address number of the uplink it came from (127.0.0.(10+addr))
     pub addr: u8,
+    /// source port (changes when the uplink's socket is replaced by a reconnect)
+    pub port: u16,
     pub bytes: Vec<u8>,
 }
 
@@ -367,6 +369,7 @@ impl Shell {
                     }
                     out.push(WireEvt {
                         addr,
+                        port: src.port(),
                         bytes: buf[..n].to_vec(),
                     });
                 }
@@ -385,6 +388,18 @@ impl Shell {
         }
         out.append(&mut self.st.instant_forwarded);
         out
+    }
+
+    /// Local port of the uplink's current socket (0 if unknown).
+    pub fn local_port(&self, idx: usize) -> u16 {
+        self.st
+            .conns
+            .get(idx)
+            .and_then(|c| self.st.conn_io.get(&c.conn_id))
+            .and_then(|io| io.socket.get_ref().local_addr().ok())
+            .and_then(|a| a.as_socket())
+            .map(|a| a.port())
+            .unwrap_or(0)
     }
 
     /// Fault: make every later send on this uplink's current socket fail
